@@ -1303,7 +1303,9 @@ RCP<const Boolean> Union::contains(const RCP<const Basic> &o) const
         if (eq(*contain, *boolTrue)) {
             return boolean(true);
         }
-        if (is_a<Contains>(*contain))
+        // anything but a definite "no" (an unevaluated Contains, or a
+        // combination of such) leaves the answer open
+        if (not eq(*contain, *boolFalse))
             throw NotImplementedError("Not implemented");
     }
     return boolean(false);
